@@ -76,6 +76,43 @@ def scenarios(draw, min_jobs=1, max_jobs=12, max_groups=3, mode="hpc", hooks=Fal
     return scn
 
 
+@st.composite
+def cancel_scenarios(draw, max_jobs=10):
+    """Scenarios biased towards cancellation chains: dense edges, many flags, failing roots, and batch
+    sizes that put failing jobs and their dependents in the same batch, the next one, or several rounds apart."""
+    n = draw(st.integers(3, max_jobs))
+    ngroups = draw(st.sampled_from([1, 1, 1, 2]))
+    jobs = []
+    for i in range(n):
+        if i == 0:
+            blk = []
+        else:
+            blk = sorted(draw(st.sets(st.integers(max(0, i - 3), i - 1), min_size=0 if i % 3 == 0 else 1,
+                                      max_size=min(i, 2))))
+        jobs.append({
+            "name": f"j{i}",
+            "blocked_by": [f"j{b}" for b in blk],
+            "cancel": draw(st.sampled_from([True, True, True, False])),
+            "rc": draw(st.sampled_from([0, 0, 0, 1, 3])),
+            "est": draw(st.integers(1, 4)),
+            "group": draw(st.integers(0, ngroups - 1)) if ngroups > 1 else 0,
+        })
+    perm = draw(st.permutations(list(range(n))))
+    groups = []
+    for _ in range(ngroups):
+        g = draw(group_params(n, max_est=4))
+        g["try_add"] = draw(st.sampled_from([True, True, False]))
+        g["batch_size"] = draw(st.sampled_from([1, 2, 3, n, n + 1]))
+        groups.append(g)
+    return {
+        "jobs": [jobs[i] for i in perm],
+        "groups": groups,
+        "max_nodes": draw(st.sampled_from([None, None, 1, 2])),
+        "poll": 1, "reports": False, "dry_run": False, "dsub": True, "mode": "hpc",
+        "hooks": {"setup": False, "teardown": False, "node_setup": False, "node_teardown": False},
+    }
+
+
 def schedules(max_size=160):
     """Scheduling choices: element k picks enabled[k % len(enabled)]; 0 = keep running the same process."""
     return st.lists(st.one_of(st.just(0), st.integers(0, 11)), max_size=max_size)
